@@ -392,8 +392,9 @@ class LoopMixin:
             self.back_edge_hook(self, r, ordn, self._loop_frame_n)
         saved_env = r.env
         try:
-            r.env = {n.lstrip("*"): self.cur_entry.env[n.lstrip("*")] for n, _, _ in self.cur_contract.params}
-            self.frame_obligations(self.cur_contract, r, self.cur_entry, f"loop{ordn}.{self._loop_frame_n}")
+            c = self.cur_contract or getattr(self, "verify_contract", None)      # inside an inlined helper: the verified function's frame
+            r.env = {n.lstrip("*"): self.cur_entry.env[n.lstrip("*")] for n, _, _ in c.params}
+            self.frame_obligations(c, r, self.cur_entry, f"loop{ordn}.{self._loop_frame_n}")
         finally:
             r.env = saved_env
 
@@ -403,6 +404,13 @@ class LoopMixin:
         text = text.strip()
         if text.startswith("@") and ":" in text:
             comp, _, flag = text[1:].partition(":")
+            if flag == "fresh":
+                # only objects allocated since the verified function was entered may change
+                from .state import ALLOC0
+                cond = lambda r: r < ALLOC0      # noqa: E731
+                cond.fresh_only = True
+                st.havoc_comp_except(comp, cond, self.component_sort(comp))
+                return
             own = st.comp("list.nodeowned")
             # havoc the component except at objects that no AST node refers to (flags as of now)
             st.havoc_comp_except(comp, lambda r, own=own: z3.Not(z3.Select(own, r)), self.component_sort(comp))
